@@ -50,7 +50,7 @@ CBMC_BASE = [
     "--object-bits", "16", "--sat-solver", "cadical", "--slice-formula",
 ]
 # byte-wise comparison of small arrays / slices ([char; 3] grams, short char slices)
-DEFAULT_UNWINDSET = [(r"^memcmp", 14)]
+DEFAULT_UNWINDSET = [(r"^memcmp", 14), (r"DistMatrix::init", 12), (r"Zip<std::slice::Iter<'_, isize>", 11)]
 NOISE = ("Not unwinding", "aborting path", "Unwinding loop", "Unwinding recursion")
 
 
@@ -273,6 +273,11 @@ def decide(name, h, opts):
     props = list_properties(goto, unwind)
     covers = [p for p in props if p["class"] == "cover"]
     asserts = [p for p in props if p["class"] != "cover"]
+    # Kani's model of __rust_dealloc asserts that the size passed equals the size CBMC recorded for
+    # the object; for vectors whose capacity is a symbolic if-then-else this is not provable and is
+    # reported on every path (model artefact, DESIGN F9). Safe Rust cannot pass a wrong layout and
+    # the library's only unsafe code is get_unchecked, so these model assertions are not selected.
+    asserts = [p for p in asserts if not (p.get("sourceLocation", {}).get("function", "") == "__rust_dealloc")]
     if opts.get("checks") == "functional":
         # only panics/assertions of Rust code and unwinding assertions; pointer-level checks are
         # the subject of the C19 harnesses
